@@ -51,6 +51,12 @@ func TestVerif(t *testing.T) {
 				fmt.Sscan(c["callers"], &cl)
 				fmt.Sscan(c["rounds"], &rd)
 				stressMerge(sd, int(cl), int(rd))
+			case "P":
+				if c["race"] == "1" {
+					poolRaceCase()
+				} else {
+					poolSeqCase(strings.Fields(c["ops"]))
+				}
 			case "M":
 				var mc MergeCase
 				if err := json.Unmarshal([]byte(c["case"]), &mc); err != nil {
@@ -97,6 +103,8 @@ func TestVerif(t *testing.T) {
 	for i := 0; i < run.Scale(30, 600); i++ {
 		stressMerge(rs.U64(), 2+rs.Intn(7), 1+rs.Intn(20))
 	}
+	// Pool.Get / release against the reference count of the model, with a forced release-vs-Get race
+	poolStream(r.Fork())
 	// every release order of the HTTP exchanges of 2 (thorough: 3) concurrent operations
 	// on one subject with a pre-existing referrer, with at most one injected index failure
 	ex := 0
@@ -117,7 +125,7 @@ func TestVerif(t *testing.T) {
 		e2eCase(t, genE2E(re, run.Thorough()))
 	}
 	// coverage floors: a stream that produced nothing is a broken check, not a pass
-	floors := map[string]int{"A/apply/": 1000, "A/remove-empty": 50, "A/filter": 50, "T/tag": 50, "K/caps": 5, "M/callers=": 100, "S/stress": 20,
+	floors := map[string]int{"A/apply/": 1000, "A/remove-empty": 50, "A/filter": 50, "T/tag": 50, "K/caps": 5, "M/callers=": 100, "S/stress": 20, "P/sequential": 40, "P/race-forced": 2,
 		"E/ops=": 100, "X/projected": 100, "Y/liveness": 80, "L/listing": 100, "D/decoration": 50, "E/same-manifest-overlap": 5,
 		"E/fault/idx-": 20, "E/outcome=idxdel": 3, "E/outcome=err": 10, "E/skipgc": 10, "E/subjects=2": 5, "E/subjects=3": 5,
 		"E/fault/idx-put/lost": 30, "E/fault/idx-del/lost": 30} // lost responses are model events (EPutLost): the projected lines are judged
